@@ -122,6 +122,9 @@ def generate(rng, tier):
                   "verb": rng.choice(VERBS), "path": rng.choice(["/a", "/b/c", "/", "/q"]),
                   "own_id": (f"caller-{k}" if rng.random() < 0.2 else None),
                   "net": gen_net(rng, fault_rate, kinds)}
+            if op["own_id"] is not None and rng.random() < 0.2:
+                # the id is not a plain str: header values may be bytes (the package's own adapters send such)
+                op["own_id_form"] = rng.choice(["bytes", "strsub"])
             if op["own_id"] is not None and rng.random() < 0.25:
                 # the caller's headers are a mapping of the caller's own type (case-insensitive names)
                 op["hdr_ci"] = True
@@ -238,6 +241,20 @@ def _derive_in_thread(w, kind):
 _SHARED_HEADERS = {}
 
 
+class CallerId(str):
+    """a caller's own subclass of str used as an id"""
+
+
+def caller_id(op):
+    """the object the caller puts under X-Request-ID"""
+    form = op.get("own_id_form")
+    if form == "bytes":
+        return op["own_id"].encode("ascii")
+    if form == "strsub":
+        return CallerId(op["own_id"])
+    return op["own_id"]
+
+
 def do_request(objs, spec, op):
     w = objs[op["w"] % len(objs)]
     if op.get("hdr_shared") is not None and op.get("own_id") is None and not op.get("derive"):
@@ -250,14 +267,14 @@ def do_request(objs, spec, op):
         w, is_mc = _derive_in_thread(w, op["derive"])
         hdrs = dict(op.get("hdr") or {})
         if op.get("own_id") is not None:
-            hdrs["X-Request-ID"] = op["own_id"]
+            hdrs["X-Request-ID"] = caller_id(op)
         kw = {"headers": hdrs} if hdrs else {}
         if is_mc:
             return w.simcall(op["verb"], op["path"], kw)
         return getattr(w, op["verb"])(op["path"], **kw)
     hdrs = dict(op.get("hdr") or {})
     if op.get("own_id") is not None:
-        hdrs["X-Request-ID"] = op["own_id"]
+        hdrs["X-Request-ID"] = caller_id(op)
         if op.get("hdr_ci"):
             hdrs = hw.CIHeaders({k.lower(): v for k, v in hdrs.items()})
     kw = {"headers": hdrs} if (hdrs or (isinstance(op["k"], int) and op["k"] % 2 == 0)) else {}
@@ -391,9 +408,11 @@ def check(spec, ops, tr, outcomes):
                                     f"op {op['k']}: sent {rid!r}, the caller's adapter gave {ids_cfg['tag']!r}")
                 continue
             if op.get("own_id") is not None:
-                if rid != op["own_id"]:
+                want = caller_id(op)
+                rid = next((v for k, v in (rec.get("raw_headers") or {}).items() if k.lower() == "x-request-id"), rid)
+                if rid != want or isinstance(rid, bytes) != isinstance(want, bytes):
                     raise Violation("reqid", "caller-id-changed",
-                                    f"op {op['k']}: sent {rid!r}, caller gave {op['own_id']!r}")
+                                    f"op {op['k']}: sent {rid!r}, caller gave {want!r}")
                 continue
             if not imp["ids"]:
                 if rid is not None:
